@@ -54,6 +54,7 @@ class C19(Check):
         cap = rng.choice([1, 1, 2, 3, 4, 5, 8, 1024])
         cfg = {'cap': cap, 'shape': shape, 'dtype': dtype, 't0': rng.choice([0.0, 0.0, -1.5, 2.0, 1e-3]),
                'y0': _vec(rng, shape, dtype), 'max_steps': None, 'alloc': None, 'mutate_y0': rng.random() < 0.5,
+               'ctor': rng.choice(['keyword', 'positional']), 'clock': rng.choice(['float', 'float', 'array']),
                # the harness's own verification queries are operations on the object too: in half of the runs only the
                # scripted queries (and the final sweep) touch it, so query-side state cannot hide behind them
                'verify_each': rng.random() < 0.5}
@@ -199,7 +200,22 @@ class C19(Check):
                 DDEHistory._grow(self)
 
         y0 = arr(cfg['y0'])
-        h = H(y0, t0=cfg['t0'], max_steps=cfg['max_steps'])
+        # the caller's clock: a Python float, or ONE 0-d float64 array that the caller advances in place between calls (the
+        # history must have taken the value, not the array)
+        clock = np.array(float(cfg['t0'])) if cfg.get('clock') == 'array' else None
+
+        def tm(t):
+            if clock is None:
+                return t
+            clock[...] = t
+            return clock
+        if cfg.get('ctor') == 'positional':
+            h = H(y0, tm(cfg['t0']), cfg['max_steps'])        # DDEHistory(y0, t0, max_steps): the documented order
+            bump(probes, 'ctor_positional')
+        else:
+            h = H(y0, t0=tm(cfg['t0']), max_steps=cfg['max_steps'])
+        if clock is not None:
+            bump(probes, 'clock_array')
         ref_t = [float(cfg['t0'])]
         ref_y = [stored(cfg['y0'])]
         if cfg.get('mutate_y0') and y0.ndim:
@@ -294,14 +310,14 @@ class C19(Check):
                 g_before = growths[0]
                 expect_refuse = bounded and len(ref_t) >= capacity
                 try:
-                    h.update(t, y)
+                    h.update(tm(t), y)
                     raised = None
                 except Interrupted as e:
                     # the update was interrupted inside _grow: it must not be half-applied, all earlier records intact
                     sweep(opi, 'after-interrupted-growth')
                     # the same update is retried (like a solver step repeated after Ctrl-C was handled)
                     try:
-                        h.update(t, y)
+                        h.update(tm(t), y)
                     except Exception as e2:
                         viol.append({'law': 'L-update', 'cls': 'loud', 'key': 'retry-after-interrupt',
                                      'detail': f'op {opi}: update({t!r}) retried after an interrupted growth raised {type(e2).__name__}: {e2}'})
